@@ -7,5 +7,7 @@ mkdir -p /verif/build/bin /verif/evidence
 go build -o /verif/build/bin/vrewrite ./cmd/vrewrite
 (cd /repo && go build ./...)
 if [ -d ./cmd/acheck ]; then go build -o /verif/build/bin/acheck ./cmd/acheck; fi
+# the race complement pass of C08 builds the same worker with -race: warm that cache too
+go build -race -o /verif/build/bin/acheck_race ./cmd/acheck
 /verif/check selftest quick
 echo "setup done"
